@@ -60,3 +60,31 @@ pub fn bits(bytes: &[u8]) -> BitVec {
 pub fn sample_seed(ctx: &Ctx, what: &str, ty: &str, seed: &[u8]) {
     ctx.sample(json!({"case": what, "type": ty, "seed": hex(seed)}));
 }
+
+/// Seeds/blocks built from documented constants: the zero-seed replacements and their fragments.
+pub fn documented_constant_seeds(ty: &dyn GenType) -> Vec<Vec<u8>> {
+    let len = ty.info().seed_len;
+    let mut out = Vec::new();
+    // XorShiftRng's preset word repeated, in every word position and everywhere
+    let word = 0x0BAD_5EEDu32.to_le_bytes();
+    let mut all = Vec::new();
+    while all.len() < len {
+        all.extend_from_slice(&word);
+    }
+    all.truncate(len);
+    out.push(all.clone());
+    for pos in (0..len).step_by(4) {
+        let mut s = vec![0u8; len];
+        s[pos..pos + 4].copy_from_slice(&word);
+        out.push(s);
+        let mut s = all.clone();
+        s[pos..pos + 4].copy_from_slice(&[0, 0, 0, 0]);
+        if s.iter().any(|&b| b != 0) {
+            out.push(s);
+        }
+    }
+    // the SplitMix64(0) stream (the xoshiro family's replacement for the zero seed)
+    out.push(refmodels::seeding::splitmix_expand(0, len));
+    out.push(refmodels::seeding::pcg32_expand(0, len));
+    out
+}
